@@ -53,6 +53,8 @@ func (monH) Generate(property string, seed uint64, tier string) *Case {
 			op.Kind = "delete_status"
 		case x < 64:
 			op.Kind = "revive"
+		case x < 70 && started:
+			op.Kind = "blip"
 		case x < 80:
 			op.Kind, op.Ms = "wait", 500+g.IntN(30000)
 		default:
@@ -145,7 +147,9 @@ func (monH) Execute(c *Case, res *Result) {
 		}
 		sim.Settle()
 		dead := map[string]time.Time{}
+		blipped := map[string]bool{} // workloads whose node's status disappeared for a moment (watcher active)
 		watcherStarted := false
+		var watcherStartedAt time.Time
 		mcfg := w.ccfg
 		for i, op := range ops {
 			w.opIndex = i
@@ -155,6 +159,7 @@ func (monH) Execute(c *Case, res *Result) {
 			case "start_watcher":
 				if !watcherStarted {
 					watcherStarted = true
+					watcherStartedAt = time.Now()
 					mon := selfmon.NewWatcherForVerif(int64(1+i), mcfg, w.core.cal, w.core.cal.GetStore())
 					go mon.RunForVerif(ctx)
 					res.Probes["watcher_started"]++
@@ -195,6 +200,7 @@ func (monH) Execute(c *Case, res *Result) {
 					for _, id := range nodeWLs[node.Name] {
 						if sm := reported[id]; sm != nil {
 							metas = append(metas, sm)
+							delete(blipped, id)
 						}
 					}
 					if len(metas) > 0 {
@@ -202,6 +208,24 @@ func (monH) Execute(c *Case, res *Result) {
 					}
 					delete(dead, node.Name)
 					res.Probes["node_revived"]++
+				}
+			case "blip":
+				// the status disappears and the heartbeat is back at once (an agent restart): the
+				// status did disappear, so the workloads are to be reported down until their
+				// agent says otherwise (it does not, here)
+				if _, ok := dead[node.Name]; !ok && watcherStarted {
+					// "while the watcher is active": it has had three minutes to take over and to
+					// establish its watch
+					if d := 3*time.Minute - time.Since(watcherStartedAt); d > 0 {
+						time.Sleep(d + offGrid(3))
+						sim.Settle()
+					}
+					_ = w.core.cal.SetNodeStatus(ctx, node.Name, -1)
+					_ = w.core.cal.SetNodeStatus(ctx, node.Name, node.HBTTL)
+					for _, id := range nodeWLs[node.Name] {
+						blipped[id] = true
+					}
+					res.Probes["status_gone_for_a_moment"]++
 				}
 			case "wait":
 				time.Sleep(time.Duration(op.Ms)*time.Millisecond + offGrid(1))
@@ -244,6 +268,14 @@ func (monH) Execute(c *Case, res *Result) {
 			}
 			for _, id := range sortedKeys(st.NodeWL[n.Name]) {
 				sm, err := w.core.cal.GetStore().GetWorkloadStatus(ctx, id)
+				if blipped[id] {
+					res.Nontrivial = true
+					res.Probes["blipped_node_workload_checked"]++
+					if err == nil && sm != nil && (sm.Running || sm.Healthy) {
+						w.viol("C28", "still-reported-up", "status-gone-for-a-moment", fmt.Sprintf("the heartbeat status of node %s disappeared for a moment (watcher active) but its workload %s is still reported running=%v healthy=%v", n.Name, shortID(id), sm.Running, sm.Healthy))
+					}
+					continue
+				}
 				if rep := reported[id]; err == nil && sm != nil && rep != nil && (sm.Running != rep.Running || sm.Healthy != rep.Healthy) {
 					w.viol("C28", "live-node-marked-down", "live", fmt.Sprintf("node %s kept heartbeating but its workload %s is reported running=%v healthy=%v (its agent said running=%v healthy=%v)", n.Name, shortID(id), sm.Running, sm.Healthy, rep.Running, rep.Healthy))
 				}
